@@ -591,3 +591,49 @@ Qed.
 
 Corollary k_gpo_from_var_stats_ok vs r g : range_valid r = true -> from_var_stats vs r = Ok g -> k_gpo_from_var_stats vs r = Ok (kgpo_of g).
 Proof. intros Hv H. rewrite k_gpo_from_var_stats_eq; [now rewrite H|exact Hv|rewrite H; discriminate]. Qed.
+
+(* ---- array_utils.get_prev_index, translated (a while loop that returns from inside), is the definition the SEARCH_F table is read with ---- *)
+Definition gpi_step (a : list Z) (value : Z) (j : Z) : result (Z + (Z + option Z)) :=
+  if 0 <=? j then do x <- py_index a j; if x =? value then Ok (inr (inr (Some j))) else Ok (inl (j - 1)) else Ok (inr (inl j)).
+
+Lemma py_index_nth {X} (a : list X) (m : nat) x : nth_error a m = Some x -> py_index a (Z.of_nat m) = Ok x.
+Proof.
+  intros H. unfold py_index, py_norm, znth. pose proof (Nat2Z.is_nonneg m) as Hm. rewrite !(proj2 (Z.ltb_ge _ _) Hm).
+  rewrite Nat2Z.id, H. reflexivity.
+Qed.
+
+Lemma gpi_loop a v : forall (n : nat) (fuel : nat), (n < fuel)%nat -> (n <= length a)%nat ->
+  while_x fuel (gpi_step a v) (Z.of_nat n - 1)
+  = Ok (match u8_prev_nat a v n with Some k => inr (Some k) | None => inl (-1) end).
+Proof.
+  induction n as [|m IH]; intros fuel Hf Hl.
+  - destruct fuel as [|f]; [lia|]. cbn [while_x u8_prev_nat Z.of_nat]. unfold gpi_step. cbn [Z.sub Z.opp Z.add Z.leb Z.compare bind]. reflexivity.
+  - destruct fuel as [|f]; [lia|]. cbn [while_x u8_prev_nat].
+    replace (Z.of_nat (S m) - 1) with (Z.of_nat m) by lia.
+    unfold gpi_step at 1. rewrite (proj2 (Z.leb_le _ _) (Nat2Z.is_nonneg m)).
+    destruct (nth_error a m) as [x|] eqn:En.
+    2:{ apply nth_error_None in En. lia. }
+    rewrite (py_index_nth a m x En). cbn [bind]. destruct (x =? v); cbn [bind]; [reflexivity|].
+    apply IH; lia.
+Qed.
+
+Theorem k_get_prev_index_eq a i v : k_get_prev_index a i v = u8_prev_index a i v.
+Proof.
+  unfold k_get_prev_index, u8_prev_index.
+  match goal with |- bind (while_x ?fu ?f _) _ = _ => change f with (gpi_step a v) end.
+  destruct (Z.ltb_spec 0 i) as [Hp|Hp]; cbn [andb].
+  - destruct (Z.ltb_spec (zlen a) i) as [Hb|Hb].
+    + (* the first access is beyond the array *)
+      cbn [while_x].
+      assert (E1 : 0 <=? i - 1 = true) by (apply Z.leb_le; lia).
+      assert (E2 : i - 1 <? 0 = false) by (apply Z.ltb_ge; lia).
+      unfold gpi_step at 1. rewrite E1.
+      unfold py_index, py_norm, znth. rewrite !E2.
+      destruct (nth_error a (Z.to_nat (i - 1))) eqn:En; [|reflexivity].
+      assert (Hlt : (Z.to_nat (i - 1) < length a)%nat) by (apply nth_error_Some; congruence). unfold zlen in Hb. lia.
+    + replace (i - 1) with (Z.of_nat (Z.to_nat i) - 1) by lia.
+      rewrite gpi_loop; [|lia|unfold zlen in Hb; lia]. cbn [bind].
+      destruct (u8_prev_nat a v (Z.to_nat i)); reflexivity.
+  - replace (Z.to_nat (i - 1)) with 0%nat by lia. cbn [while_x]. unfold gpi_step at 1.
+    assert (E3 : 0 <=? i - 1 = false) by (apply Z.leb_gt; lia). rewrite E3. cbn [bind]. replace (Z.to_nat i) with 0%nat by lia. reflexivity.
+Qed.
